@@ -196,7 +196,7 @@ func (d *Driver) Run(prog string, frame []byte, tail int) (int, []byte, uint32, 
 
 // NewKernelMap creates a real kernel map with the C-declared key/value sizes (capacity reduced).
 func NewKernelMap(mi MapInfo) (*ebpf.Map, error) {
-	spec := &ebpf.MapSpec{Name: trunc(mi.Name), Type: ebpf.MapType(mi.Type), KeySize: uint32(mi.KeySize), ValueSize: uint32(mi.ValueSize), MaxEntries: uint32(min(max(mi.MaxEntries, 1), 4096))}
+	spec := &ebpf.MapSpec{Name: trunc(mi.Name), Type: ebpf.MapType(mi.Type), KeySize: uint32(mi.KeySize), ValueSize: uint32(mi.ValueSize), MaxEntries: uint32(min(max(mi.MaxEntries, 1), 128))}
 	if spec.Type == ebpf.LPMTrie {
 		spec.Flags = 1 // BPF_F_NO_PREALLOC
 	}
